@@ -37,6 +37,11 @@ impl Allocator {
         ensures node_tree(*self, n) == Some(Tree::Atom(atombuf_view(r)))
     { unimplemented!() }
     #[verifier::external_body]
+    pub fn atom_len(&self, n: NodePtr) -> (r: usize)
+        requires node_tree(*self, n) is Some, node_tree(*self, n)->Some_0 is Atom
+        ensures node_tree(*self, n)->Some_0 matches Tree::Atom(v) && r == v.len()
+    { unimplemented!() }
+    #[verifier::external_body]
     pub fn new_atom(&mut self, v: &[u8]) -> (r: Result<NodePtr, EvalErr>)
         ensures alloc_ext(*old(self), *final(self)),
             r matches Ok(n) ==> node_tree(*final(self), n) == Some(Tree::Atom(v@)),
